@@ -140,13 +140,45 @@ func checkC18(p *Program, r *Report) {
 	checkLayoutSiblings(p, r, "C18.level-locator")
 
 	// ---- inclusive rank at the last position
-	r.Rule("C18.inclusive", "E6", "rank at the last bitmap position counts the last bit", 2)
+	r.Rule("C18.inclusive", "E6", "rank at the last bitmap position counts the last bit", 1)
 	n := 0
 	for _, f := range p.FuncsOf(triePath) {
 		for _, c := range callsIn(f) {
 			call, ok := c.(*ssa.Call)
-			if !ok || !calleeIs(call, idRank64, idRank128) || len(call.Call.Args) < 3 {
+			if !ok || len(call.Call.Args) < 3 {
 				continue
+			}
+			weight := 1
+			if !calleeIs(call, idRank64, idRank128) {
+				// a counting helper that is handed the rank function: every call site passes a library rank
+				prm, isPrm := call.Call.Value.(*ssa.Parameter)
+				if !isPrm || call.Call.IsInvoke() {
+					continue
+				}
+				idx := -1
+				for i, q := range f.Params {
+					if q == prm {
+						idx = i
+					}
+				}
+				sites, okAll := 0, idx >= 0
+				for _, g := range p.FuncsOf(triePath) {
+					for _, cc := range callsIn(g) {
+						if calleeOf(cc) != f {
+							continue
+						}
+						sites++
+						args := cc.Common().Args
+						fn, isFn := args[idx].(*ssa.Function)
+						if idx >= len(args) || !isFn || !(funcID(fn) == idRank64 || funcID(fn) == idRank128) {
+							okAll = false
+						}
+					}
+				}
+				if !okAll || sites == 0 {
+					continue
+				}
+				weight = sites
 			}
 			e := newEval(p)
 			pos := e.eval(call.Call.Args[2]).String()
@@ -157,7 +189,7 @@ func checkC18(p *Program, r *Report) {
 			if pos != want1 && pos != want2 {
 				continue
 			}
-			n++
+			n += weight
 			r.Func(shortFn(f))
 			var e0, e1 *ssa.Extract
 			for _, ref := range *call.Referrers() {
